@@ -946,6 +946,74 @@ func (e *Engine) LockingFunctions() []*ssa.Function {
 	return out
 }
 
+// CondSignalFunctions lists in-module functions that wake a condition variable declared
+// `condlocked` for prop (a call of Signal/Broadcast on the field, or its method value).
+func (e *Engine) CondSignalFunctions(prop string) []*ssa.Function {
+	decl := map[string]bool{}
+	for _, pc := range e.contracts {
+		for _, g := range pc.CondLocked {
+			if hasProp(g.Props, prop) {
+				decl[pc.PkgPath+"."+g.Type+"."+g.Mutex] = true
+			}
+		}
+	}
+	if len(decl) == 0 {
+		return nil
+	}
+	fromField := func(v ssa.Value) bool {
+		if u, ok := v.(*ssa.UnOp); ok && u.Op == token.MUL {
+			v = u.X
+		}
+		fa, ok := v.(*ssa.FieldAddr)
+		if !ok {
+			return false
+		}
+		n := namedOf(fa.X.Type())
+		if n == nil || n.Obj().Pkg() == nil {
+			return false
+		}
+		st, ok := n.Underlying().(*types.Struct)
+		if !ok {
+			return false
+		}
+		return decl[n.Obj().Pkg().Path()+"."+n.Obj().Name()+"."+st.Field(fa.Field).Name()]
+	}
+	wakes := func(f *ssa.Function) bool {
+		for _, b := range f.Blocks {
+			for _, in := range b.Instrs {
+				switch x := in.(type) {
+				case *ssa.MakeClosure:
+					if g, ok := x.Fn.(*ssa.Function); ok && g.Synthetic != "" && len(x.Bindings) == 1 && (g.Name() == "Broadcast$bound" || g.Name() == "Signal$bound") && fromField(x.Bindings[0]) {
+						return true
+					}
+				case ssa.CallInstruction:
+					c := x.Common()
+					if callee := c.StaticCallee(); callee != nil && len(c.Args) > 0 {
+						if s := callee.String(); (s == "(*sync.Cond).Broadcast" || s == "(*sync.Cond).Signal") && fromField(c.Args[0]) {
+							return true
+						}
+					}
+				}
+			}
+		}
+		return false
+	}
+	var out []*ssa.Function
+	for f := range e.allFuncs {
+		if !e.inModule(f) || len(f.Blocks) == 0 || f.Synthetic != "" || e.autoInline(f) {
+			continue
+		}
+		if p := pkgOf(f); p == nil || strings.Contains(p.Pkg.Path(), "/examples/") || strings.HasSuffix(p.Pkg.Path(), "mock") {
+			continue
+		}
+		if e.throughAutoInlined(f, wakes) {
+			out = append(out, f)
+		}
+	}
+	sort.Slice(out, func(i, j int) bool { return out[i].String() < out[j].String() })
+	return out
+}
+
 // throughAutoInlined: pred holds for f or for an auto-inlined helper f (transitively) calls.
 func (e *Engine) throughAutoInlined(f *ssa.Function, pred func(*ssa.Function) bool) bool {
 	seen := map[*ssa.Function]bool{}
